@@ -48,3 +48,13 @@ unsigned long module_fn_bad(YR_OBJECT* module)
   PE* pe = (PE*) module->data;
   return pe->data_size;
 }
+
+/* R6.7: range predicate as a function */
+int range_ok_bad(const void* base, unsigned long size, const void* ptr, unsigned long long n)
+{
+  return ptr >= base && ((const char*) ptr) + n <= ((const char*) base) + size;   /* n may wrap */
+}
+int range_ok_good(const void* base, unsigned long size, const void* ptr, unsigned long long n)
+{
+  return ptr >= base && n <= size && ((const char*) ptr) + n <= ((const char*) base) + size;
+}
